@@ -59,6 +59,13 @@ class Handle:
 
 
 def enc(v):
+    import decimal
+    import fractions
+
+    if isinstance(v, decimal.Decimal):
+        return {"t": "decimal", "v": str(v)}
+    if isinstance(v, fractions.Fraction):
+        return {"t": "fraction", "v": "%d/%d" % (v.numerator, v.denominator)}
     if isinstance(v, Handle):
         return {"t": "handle", "v": v.n}
     if type(v).__name__ == "lock":
@@ -92,6 +99,14 @@ def enc(v):
 
 def dec(d):
     t = d["t"]
+    if t == "decimal":
+        import decimal
+
+        return decimal.Decimal(d["v"])
+    if t == "fraction":
+        import fractions
+
+        return fractions.Fraction(d["v"])
     if t == "bomb":
         return Bomb(d["v"])
     if t == "handle":
